@@ -55,6 +55,10 @@ type Event struct {
 	Rebuilt []int  `json:"rebuilt"`
 	Agree   Agree  `json:"agree"`
 	Diff    string `json:"diff"`
+	// operations that were stored under a local ref before the action and are not any more, although the bug still has
+	// its local ref (nothing an action does may lose stored operations; a removal takes the whole bug)
+	Lost     int    `json:"lost"`
+	LostWhat string `json:"lostwhat"`
 }
 
 type replica struct {
@@ -354,9 +358,45 @@ func (w *world) edit(b *cache.BugCache, kind string) error {
 	return err
 }
 
+// storedOps: the operation ids stored in git under every local bug ref, read without the cache
+func storedOps(repo *repository.GoGitRepo) map[entity.Id]map[entity.Id]bool {
+	res := map[entity.Id]map[entity.Id]bool{}
+	refs, err := repo.ListRefs("refs/bugs/")
+	hx.Must(err)
+	for _, ref := range refs {
+		id := entity.RefToId(ref)
+		b, err := bug.Read(repo, id)
+		if err != nil {
+			continue // unreadable: reported by the observation
+		}
+		ops := map[entity.Id]bool{}
+		for _, op := range b.Operations() {
+			ops[op.Id()] = true
+		}
+		res[id] = ops
+	}
+	return res
+}
+
 func (w *world) do(s Step) {
 	r := w.reps[s.R]
 	ev := &Event{Ev: s.Act, R: s.R, B: s.B, N: s.N, Kind: s.Kind, Git: []int{}, Live: []int{}, Rebuilt: []int{}}
+	before := storedOps(r.repo)
+	defer func() {
+		after := storedOps(r.repo)
+		for id, ops := range before {
+			now, ok := after[id]
+			if !ok {
+				continue
+			}
+			for op := range ops {
+				if !now[op] {
+					ev.Lost++
+					ev.LostWhat = fmt.Sprintf("operation %s of bug %s", op.Human(), id.Human())
+				}
+			}
+		}
+	}()
 	resolve := func() *cache.BugCache {
 		if s.B < 1 || s.B > len(w.bugIds) {
 			ev.Err = "no such bug"
